@@ -687,6 +687,10 @@ pub fn run_c02(a: &Args, shared: &SharedReport) {
             for m1 in 0..nm {
                 for m2 in 0..nm {
                     let mut variants: Vec<Vec<(Expectation, u8)>> = vec![vec![(Expectation::Always, m1 as u8), (Expectation::Sometimes, m2 as u8)]];
+                    if (m1 * 3 + m2) % 4 == 2 {
+                        // the second property of each kind must be decided as exactly as the first
+                        variants.push(vec![(Expectation::Always, 0xFF), (Expectation::Always, m1 as u8), (Expectation::Sometimes, 0), (Expectation::Sometimes, m2 as u8)]);
+                    }
                     if th && (m1 + m2) % 5 == 0 {
                         // a violated/held always, a sometimes, and a never-witnessed sometimes: the search must go on
                         variants.push(vec![(Expectation::Sometimes, m2 as u8), (Expectation::Always, m1 as u8), (Expectation::Sometimes, 0)]);
@@ -794,6 +798,8 @@ fn eventually_propsets(n: usize, a: u8, b: u8, th: bool) -> Vec<Vec<(Expectation
     let mut v = vec![
         vec![(Expectation::Eventually, a), always_true()],
         vec![(Expectation::Eventually, a), (Expectation::Eventually, b)],
+        // eventually-properties that are not first in the list (their bit index is the property index)
+        vec![always_true(), (Expectation::Sometimes, 0), (Expectation::Eventually, a)],
     ];
     if th {
         v.push(vec![(Expectation::Sometimes, b), (Expectation::Eventually, a), (Expectation::Always, full & !b)]);
@@ -833,7 +839,7 @@ fn run_eventually(a: &Args, shared: &SharedReport, checks: Vec<&'static str>, wi
                         if th && n == 3 && (pi as u32 + ma) % 2 == 1 {
                             continue;
                         }
-                        if !th && n == 3 && (pi as u32 + ma) % 2 == 1 {
+                        if !th && n == 3 && (pi as u32 + ma) % 3 != 1 {
                             // quick: alternate the two property sets over the masks at n=3
                             continue;
                         }
